@@ -14,6 +14,7 @@ import Nuts.Driver.DB
 import Nuts.Driver.Codec
 import Nuts.Driver.Modes
 import Nuts.Driver.Fuzz
+import Nuts.Driver.Sparse
 open Nuts Nuts.Driver
 
 inductive SuiteSt where
@@ -23,6 +24,7 @@ inductive SuiteSt where
   | codec
   | modes (s : ModesSuite.St)
   | fuzz
+  | sparse (s : SparseSuite.St)
 
 def freshSuite (name : String) : SuiteSt :=
   match name with
@@ -30,6 +32,7 @@ def freshSuite (name : String) : SuiteSt :=
   | "codec" => .codec
   | "modes" => .modes {}
   | "api-fuzz" => .fuzz
+  | "db-sparse" => .sparse {}
   | _ => if name.startsWith "db" then .db {} else .none
 
 def stepSuite (s : SuiteSt) (cmd impl : String) : SuiteSt × Verdict :=
@@ -40,6 +43,7 @@ def stepSuite (s : SuiteSt) (cmd impl : String) : SuiteSt × Verdict :=
   | .codec => (s, (CodecSuite.step () cmd impl).2)
   | .modes st => let (st', v) := ModesSuite.step st cmd impl; (.modes st', v)
   | .fuzz => (s, FuzzSuite.step cmd impl)
+  | .sparse st => let (st', v) := SparseSuite.step st cmd impl; (.sparse st', v)
 
 def renderVerdict (lineno : Nat) (cmd impl : String) (v : Verdict) : String :=
   let m := if v.model == impl then "M" else "m"
